@@ -103,7 +103,7 @@ def gen_case(rng, maxlen, ci):
         elif x < 0.88:
             ops.append("reserr")
         elif x < 0.95 and created:
-            ops.append("health ~%d %s %d" % (rng.choice([0, 0, 0, 1]), rng.choice("RRTC"), rng.randrange(0, 3)))
+            ops.append("health ~%d %s %d" % (rng.choice([0, 0, 1, 1, 2]), rng.choice("RRTC"), rng.randrange(0, 3)))
         elif x < 0.955:
             ops.append("close")
             if rng.random() < 0.7:
@@ -127,6 +127,9 @@ def directed():
     # health listener
     yield Case("s_pickfirst", ["update 1 0 e 4.1,4.2", "sc 1 C 0", "sc 1 R 0", "pick", "health 1 C 0", "health 1 R 0", "pick",
                                "health 1 T 2", "pick", "health 1 R 0", "sc 1 I 0", "health 1 R 0", "pick"], "health")
+    # a queued health update of a SubConn that was shut down meanwhile must be ignored
+    yield Case("s_pickfirst", ["update 1 0 e 4.1", "sc 1 C 0", "sc 1 R 0", "health 1 R 0", "update 1 0 e 4.2", "health 1 R 0", "pick",
+                               "health 1 T 1", "pick", "sc 2 C 0", "health 1 C 0"], "stale-health")
     # resolver updates around READY; empty list; resolver error
     yield Case("s_pickfirst", ["reserr", "update 0 0 e -", "update 0 1 e 4.1+6.1,4.2", "sc 1 C 0", "sc 1 R 0", "update 0 0 e 6.1,4.2",
                                "update 0 0 e 6.2", "sc 2 C 0", "reserr", "update 0 0 e -", "pick", "close", "pick", "sc 2 S 0"], "updates")
